@@ -125,6 +125,7 @@ func runHistory(r *sup.CaseResult, gen *mfs.Gen, nops int, cfg cfgT, tmp string)
 	host0 := hostSnapshot(tmp, jail)
 	ds, ms := mfs.NewSubject(dfs), mfs.NewSubject(mem)
 	model := mfs.NewModel()
+	model.SelfCopySnapshot = true // a directory copied to an absent path below itself meets the stated preconditions
 	gen.M = model
 	fail := func(class, detail string) {
 		r.Violate(class, detail, map[string]any{"history": mfs.HistString(hist), "config": fmt.Sprintf("%+v", cfg), "model_tree": model.Root.Dump()})
@@ -279,7 +280,7 @@ func main() {
 		Level: "exploration",
 		Rule:  "one generated history is executed step by step on memfs, on diskfs (fresh temp dir) and on the tree model (which decides whether the stated preconditions hold); inside the preconditions: disk result = memory result and disk tree = memory tree after every step; outside: no panic and no change off the addressed paths on both backends; host sentinels next to/above the root are hashed after every step. Configurations root/root, child/child, mixed. distinct = distinct operation sequences; non-trivial = ≥1 successful mutation inside the preconditions",
 		Assumptions: []string{
-			"preconditions as in the statement plus 'source has the kind the operation names'; removing the root, symlinks, permission bits and copying a directory into itself are not generated",
+			"preconditions as in the statement plus 'source has the kind the operation names'; removing the root, symlinks and permission bits are not generated; a directory copied to an absent path below itself (destination parent exists) meets the stated preconditions and is compared – the destination must receive a copy of the source as it was before the call; a directory copied onto itself is not generated",
 			"child views are requested only on existing directories; obtaining a view is not a compared operation",
 			"after an operation outside the preconditions on which the two backends legitimately differ the history stops",
 		},
@@ -290,7 +291,7 @@ func main() {
 				rng := c.Rand(idx)
 				w := mfs.DefaultWeights()
 				cfg := mfs.GenCfg{Names: namePool(idx), MaxDepth: 3, Spell: true, Views: idx%2 == 0, ViewOnlyOnDirs: true,
-					PrecondBias: 0.9, Weights: w, BigData: idx%9 == 0, NoDestInsideSrc: true}
+					PrecondBias: 0.9, Weights: w, BigData: idx%9 == 0, NoDestInsideSrc: idx%4 != 2}
 				gen := &mfs.Gen{Cfg: cfg, R: rng}
 				conf := cfgT{memChild: idx%4 == 1 || idx%4 == 2, diskChild: idx%4 == 1 || idx%4 == 3}
 				c.Case(idx, map[string]any{"hist": idx, "ops": nops, "cfg": fmt.Sprintf("%+v", conf)}, func(r *sup.CaseResult) {
@@ -325,8 +326,13 @@ func main() {
 // namePool: every third history uses names one of which is a string prefix of another ("a" /
 // "ab"): code that compares paths as strings instead of element by element confuses them.
 func namePool(idx int) []string {
-	if idx%3 == 1 {
+	switch idx % 6 {
+	case 1:
 		return []string{"a", "ab", "b"}
+	case 3:
+		return []string{"a", "..a", "..."} // begin with dots without being "." or ".."
+	case 5:
+		return []string{"a", "a.tmp", "b"} // a sibling that looks like a temporary name of another
 	}
 	return []string{"a", "b", "c"}
 }
